@@ -16,7 +16,6 @@ import (
 	"sync/atomic"
 	"time"
 
-	"github.com/rbell/toolchest/storage"
 	"verifharness/internal/cw"
 )
 
@@ -46,7 +45,7 @@ func (o opt) String() string {
 }
 
 type runner struct {
-	c       *storage.FifoMapCache[int, int]
+	c       cacheI
 	cancel  context.CancelFunc
 	o       opt
 	U       int
@@ -58,31 +57,22 @@ type runner struct {
 	lastLen int
 }
 
-func newRunner(o opt, capacity, U int, preCancel bool) *runner {
+func newRunner(o opt, capacity, U int, preCancel bool, variant int) *runner {
 	ctx, cancel := context.WithCancel(context.Background())
 	if preCancel {
 		cancel() // a cache constructed on a context that is already done
 	}
-	opts := []func(*storageCfg){}
-	_ = opts
-	var c *storage.FifoMapCache[int, int]
-	if o.balanced {
-		c = storage.NewFifoMapCache[int, int](ctx, capacity, storage.WithSweepFrequency(time.Hour), storage.WithBalancedPartitions(o.nRoot, o.minimum))
-	} else {
-		c = storage.NewFifoMapCache[int, int](ctx, capacity, storage.WithSweepFrequency(time.Hour))
-	}
+	c := newCache(ctx, o, capacity, variant)
 	r := &runner{c: c, cancel: cancel, o: o, U: U, nextVal: 100, tags: map[string]bool{}}
-	hold(c)
+	c.hold()
 	return r
 }
-
-type storageCfg struct{}
 
 // close releases the sweeps.  The construction context is deliberately NOT cancelled here: the background ticker
 // (period one hour) just stays parked, so that a defect in the cancellation path (property C08's business)
 // cannot disturb the sequential checks.  Only the small "cancelled-context" family cancels (label k / K): the
 // cache's operations, explicit Sweep included, do not depend on the context, so the model ignores the label.
-func (r *runner) close() { release(r.c); _ = r.cancel }
+func (r *runner) close() { r.c.release(); _ = r.cancel }
 
 // waitSweepers waits until no goroutine is inside (or about to enter) FifoMapCache.Sweep
 func waitSweepers() {
@@ -151,10 +141,10 @@ func (r *runner) del(k int) {
 }
 func (r *runner) sweep() {
 	before := r.c.Len()
-	release(r.c)
+	r.c.release()
 	r.c.Sweep()
 	waitSweepers()
-	hold(r.c)
+	r.c.hold()
 	r.emit("HSweep", "Sweep()")
 	if r.c.Len() < before {
 		r.tags["eviction"] = true
@@ -176,13 +166,13 @@ func (r *runner) resize(n int) {
 	// first: Resize is therefore exercised on swept states only (the theorems cover un-swept ones).
 	r.sweep()
 	r.obs()
-	before := layout(r.c)
+	before := r.c.layout()
 	lb := r.c.Len()
-	release(r.c)
+	r.c.release()
 	r.c.Resize(n)
 	waitSweepers()
-	hold(r.c)
-	after := layout(r.c)
+	r.c.hold()
+	after := r.c.layout()
 	where := map[int]int{}
 	for i, p := range after {
 		for _, k := range p {
@@ -226,7 +216,7 @@ func runHist(w *cw.Writer, mon int, h hist, tag string) {
 		return // another process of this run executes this history
 	}
 	pre := len(h.prog) > 0 && h.prog[0] == "K"
-	r := newRunner(h.o, h.cap, h.U, pre)
+	r := newRunner(h.o, h.cap, h.U, pre, histCounter/max(nshards, 1))
 	defer r.close()
 	// watchdog: a sequential history whose operation never returns (a lock left held, a lost wake-up) is a failing
 	// input in its own right; report it with the operation instead of hanging until the runner's time limit
@@ -275,7 +265,7 @@ func runHist(w *cw.Writer, mon int, h hist, tag string) {
 			r.sweep()
 		}
 	}
-	tags := []string{tag, "opt:" + map[bool]string{false: "default", true: "balanced"}[h.o.balanced]}
+	tags := []string{tag, "opt:" + map[bool]string{false: "default", true: "balanced"}[h.o.balanced], "inst:" + r.c.inst()}
 	for t := range r.tags {
 		tags = append(tags, t)
 	}
@@ -283,7 +273,7 @@ func runHist(w *cw.Writer, mon int, h hist, tag string) {
 	trivial := !(r.tags["eviction"] || r.tags["resize"] || (r.tags["update"] && r.tags["delete-present"]))
 	w.Add(cw.Case{
 		Coq:  fmt.Sprintf("CHist %d %s %d %d %s", mon, h.o.coq(), h.cap, h.o.root(h.cap), cw.L(r.ops)),
-		Desc: map[string]any{"option": h.o.String(), "capacity": h.cap, "universe": h.U, "program": strings.Join(h.prog, " "), "observed": r.desc},
+		Desc: map[string]any{"instantiation": r.c.inst(), "option": h.o.String(), "capacity": h.cap, "universe": h.U, "program": strings.Join(h.prog, " "), "observed": r.desc},
 		Tags: tags, Key: fmt.Sprint(h.o, h.cap, h.prog), Trivial: trivial,
 	})
 }
